@@ -59,8 +59,10 @@ where
     R::Storage: Into<u32>,
 {
     let mut buf = bytes_in(bytes);
+    // the value from_u32 built (observes the mask), the store result, all bytes, the value loaded back
+    let rv = val(R::from_u32(v));
     let ok = R::from_u32(v).store::<O>(&mut buf, idx).is_ok();
-    format!("{} {} {}", sb(ok), bytes_out(&buf), opt_val(R::load::<O>(&buf, idx)))
+    format!("{} {} {} {}", rv, sb(ok), bytes_out(&buf), opt_val(R::load::<O>(&buf, idx)))
 }
 fn rd_load<R: RawData, O: DataOrder>(idx: usize, bytes: &[&str]) -> String
 where
@@ -94,8 +96,47 @@ where
     out.join(" ")
 }
 
+/// a large buffer given by a rule instead of a byte list: byte k = (a * k + b + (k >> 8) + (k >> 16)) mod 256
+fn big_buf(len: usize, a: usize, b: usize) -> Vec<u8> {
+    (0..len).map(|k| ((a * k + b + (k >> 8) + (k >> 16)) % 256) as u8).collect()
+}
+/// rd_big <bpp> <alt> <len> <a> <b> <idx> <v>: load, store (bytes of the 8 bytes around the pixel), load back, and the
+/// neighbours idx-1 / idx+1 before and after, on a buffer of `len` bytes
+fn rd_big<R: RawData, O: DataOrder>(bpp: usize, len: usize, a: usize, b: usize, idx: usize, v: u32) -> String
+where
+    R::Storage: Into<u32>,
+{
+    let mut buf = big_buf(len, a, b);
+    let before = buf.clone();
+    let l0 = opt_val(R::load::<O>(&buf, idx));
+    let n0 = format!("{}/{}", opt_val(R::load::<O>(&buf, idx.wrapping_sub(1))), opt_val(R::load::<O>(&buf, idx.saturating_add(1))));
+    let ok = R::from_u32(v).store::<O>(&mut buf, idx).is_ok();
+    let l1 = opt_val(R::load::<O>(&buf, idx));
+    let n1 = format!("{}/{}", opt_val(R::load::<O>(&buf, idx.wrapping_sub(1))), opt_val(R::load::<O>(&buf, idx.saturating_add(1))));
+    // positions of all changed bytes
+    let changed: Vec<String> = (0..len).filter(|k| buf[*k] != before[*k]).map(|k| format!("{}:{}", k, buf[k])).collect();
+    let _ = bpp;
+    format!("{} {} {} {} {} {}", l0, n0, sb(ok), l1, n1, if changed.is_empty() { "-".into() } else { changed.join(",") })
+}
+/// rd_big_nth <bpp> <alt> <len> <a> <b> <k1> <k2>: nth(k1) then nth(k2) with size_hint, on a large buffer
+fn rd_big_nth<R: RawData, O: DataOrder>(len: usize, a: usize, b: usize, k1: usize, k2: usize) -> String
+where
+    R::Storage: Into<u32>,
+{
+    let buf = big_buf(len, a, b);
+    let mut it = RawDataSlice::<R, O>::new(&buf).into_iter();
+    let h0 = hint(it.size_hint());
+    let x1 = opt_val(it.nth(k1));
+    let h1 = hint(it.size_hint());
+    let x2 = opt_val(it.nth(k2));
+    let h2 = hint(it.size_hint());
+    format!("{} {}@{} {}@{}", h0, x1, h1, x2, h2)
+}
+
 pub fn run(suite: &str, a: &[&str]) -> Option<String> {
     Some(match suite {
+        "rd_big" => by_type!(a[0], a[1], rd_big(us(a[0]), us(a[2]), us(a[3]), us(a[4]), us(a[5]), a[6].parse::<u64>().unwrap() as u32)),
+        "rd_big_nth" => by_type!(a[0], a[1], rd_big_nth(us(a[2]), us(a[3]), us(a[4]), us(a[5]), us(a[6]))),
         "rd_store" => by_type!(a[0], a[1], rd_store(us(a[2]), a[3].parse::<u64>().unwrap() as u32, &a[4..])),
         "rd_load" => by_type!(a[0], a[1], rd_load(us(a[2]), &a[3..])),
         "rd_iter" => by_type!(a[0], a[1], rd_iter(&a[2..])),
@@ -201,6 +242,22 @@ where
     let mut rng = Sm(seed);
     let total = ref_total(bpp, before.len());
     let mut n = 0usize;
+    // unmasked u32 inputs: from_u32 must mask to the pixel width, and store/load must agree with the masked value
+    let maxv: u64 = if bpp >= 32 { u32::MAX as u64 } else { (1u64 << bpp) - 1 };
+    for raw in [0xFFFF_FFFFu32, 0xFF12_3456, 0x8000_0000, 0x0100_0000, 0xA5A5_A5A5, rng.next() as u32] {
+        let rv = val(R::from_u32(raw));
+        let want = (raw as u64 & maxv) as u32;
+        if rv != want {
+            return format!("FAIL from_u32({:#x}) holds {:#x}, a {}-bit raw value must be {:#x}", raw, rv, bpp, want);
+        }
+        let mut buf = before.clone();
+        if R::from_u32(raw).store::<O>(&mut buf, idx).is_ok() {
+            let back = R::load::<O>(&buf, idx).map(val);
+            if back != Some(want) {
+                return format!("FAIL from_u32({:#x}).store at {} then load = {:?}, expected {:#x}", raw, idx, back, want);
+            }
+        }
+    }
     for v in values(bpp, mode, &mut rng) {
         let mut buf = before.clone();
         let res = R::from_u32(v).store::<O>(&mut buf, idx);
